@@ -559,6 +559,27 @@ func init() {
 			if at, ok := a[0].(SAtom); ok && at.fn == "itoa" {
 				return Tu{Sc{w: 64, t: at.arg}, If{}}
 			}
+			if at, ok := a[0].(SAtom); ok && at.fn == "ftoa" {
+				// %v of a float64 (shortest 'g'): the text is a plain integer literal exactly when the
+				// value is integral and below 1e21 in magnitude with fewer than 7 digits before the
+				// exponent form sets in, i.e. |x| < 1e6 (strconv %g with shortest precision switches to
+				// the exponent form at 1e6); then Atoi yields that integer. Stated model of strconv.
+				x := Sc{w: 64, t: at.arg}
+				f64, i64 := tinfo{w: 64, signed: true, float: true}, tinfo{w: 64, signed: true}
+				asInt := e.convert(types.Typ[types.Float64], types.Typ[types.Int64], f64, i64, x).(Sc)
+				back := e.convert(types.Typ[types.Int64], types.Typ[types.Float64], i64, f64, asInt).(Sc)
+				lim := Sc{w: 64, c: math.Float64bits(1e6)}
+				nlim := Sc{w: 64, c: math.Float64bits(-1e6)}
+				integral := e.andSc(e.floatOp(token.EQL, back, x), e.andSc(e.floatOp(token.LSS, x, lim), e.floatOp(token.GTR, x, nlim)))
+				if e.decide(integral) {
+					return Tu{asInt, If{}}
+				}
+				return Tu{isc(0), If{t: sentinelType, v: Str("strconv.Atoi: parsing a float rendering: invalid syntax")}}
+			}
+			if at, ok := a[0].(SAtom); ok && strings.HasPrefix(at.fn, "ffmt:") {
+				// a float formatted with an explicit precision: not an integer literal in general
+				return Tu{isc(0), If{t: sentinelType, v: Str("strconv.Atoi: parsing a float rendering: invalid syntax")}}
+			}
 			if _, ok := a[0].(SAtom); ok {
 				e.unsupported("strconv.Atoi of a formatted symbolic non-integer")
 			}
@@ -600,6 +621,15 @@ func init() {
 			return e.eqVal(types.Universe.Lookup("error").Type(), a[0], a[1])
 		},
 		"strconv.ParseFloat": func(e *Engine, f *ssa.Function, a []Val) Val {
+			if at, isAtom := a[0].(SAtom); isAtom && at.fn == "ftoa" {
+				// the shortest rendering of a float64 parses back to exactly that float (strconv is
+				// trusted, as for Itoa/Atoi)
+				return Tu{Sc{w: 64, t: at.arg}, If{}}
+			}
+			if at, isAtom := a[0].(SAtom); isAtom && strings.HasPrefix(at.fn, "ffmt:") {
+				// formatted with an explicit precision: parses to some float, not known to be the same
+				return Tu{e.fresh("parsedfloat", 64), If{}}
+			}
 			s, ok := a[0].(Str)
 			if !ok {
 				// symbolic text: only plain decimal literals (digits with at most one dot, a digit first,
@@ -1037,6 +1067,35 @@ func (e *Engine) sprintfVal(format Val, args Val) Val {
 		}
 		arg := sl.a[ai]
 		ai++
+		if sc, isSc := argScalar(arg); isSc && sc.t != nil && flags != "" && strings.IndexByte("efgEFG", verb) >= 0 {
+			// a symbolic float with an explicit width/precision: an opaque rendering of its own kind
+			out = concat(out, SAtom{fn: "ffmt:" + flags + string(verb), arg: sc.t})
+			continue
+		}
+		if i, isIf := arg.(If); isIf && flags != "" {
+			// concrete operand: the real fmt does the width/precision formatting
+			spec := "%" + flags + string(verb)
+			switch cv := i.v.(type) {
+			case Str:
+				out = concat(out, Str(fmt.Sprintf(spec, string(cv))))
+				continue
+			case Sc:
+				if cv.t == nil && i.t != nil {
+					ti := scalarInfo(i.t)
+					switch {
+					case ti.float && ti.w == 64:
+						out = concat(out, Str(fmt.Sprintf(spec, math.Float64frombits(cv.c))))
+						continue
+					case ti.w > 0 && !ti.float && ti.signed:
+						out = concat(out, Str(fmt.Sprintf(spec, sextW(cv.w, cv.c))))
+						continue
+					case ti.w > 0 && !ti.float:
+						out = concat(out, Str(fmt.Sprintf(spec, cv.c)))
+						continue
+					}
+				}
+			}
+		}
 		if flags != "" {
 			// width/flag formatting is not reproduced: value text is carried through as an opaque piece
 			out = concat(out, Str("‹"))
@@ -1047,6 +1106,16 @@ func (e *Engine) sprintfVal(format Val, args Val) Val {
 		out = concat(out, e.formatArg(arg, rune(verb)))
 	}
 	return out
+}
+
+// argScalar unwraps an interface holding a scalar.
+func argScalar(a Val) (Sc, bool) {
+	if i, ok := a.(If); ok {
+		sc, ok := i.v.(Sc)
+		return sc, ok
+	}
+	sc, ok := a.(Sc)
+	return sc, ok
 }
 
 func (e *Engine) formatArg(a Val, verb rune) Val {
